@@ -19,7 +19,8 @@ var MaxIntrospectionDepth = Rule{
 		observers.OnField(func(walker *Walker, field *ast.Field) {
 			if field.Name == "__schema" || field.Name == "__type" {
 				visitedFragments := make(map[string]bool)
-				if checkDepthField(field, visitedFragments, 0) {
+				checkedFragments := make(map[string]int)
+				if checkDepthField(field, visitedFragments, checkedFragments, 0) {
 					addError(
 						Message(`Maximum introspection depth exceeded`),
 						At(field.Position),
@@ -31,21 +32,21 @@ var MaxIntrospectionDepth = Rule{
 	},
 }
 
-func checkDepthSelectionSet(selectionSet ast.SelectionSet, visitedFragments map[string]bool, depth int) bool {
+func checkDepthSelectionSet(selectionSet ast.SelectionSet, visitedFragments map[string]bool, checkedFragments map[string]int, depth int) bool {
 	verifhook.Step(verifhook.SiteIntrospectionDepth)
 	for _, child := range selectionSet {
 		if field, ok := child.(*ast.Field); ok {
-			if checkDepthField(field, visitedFragments, depth) {
+			if checkDepthField(field, visitedFragments, checkedFragments, depth) {
 				return true
 			}
 		}
 		if fragmentSpread, ok := child.(*ast.FragmentSpread); ok {
-			if checkDepthFragmentSpread(fragmentSpread, visitedFragments, depth) {
+			if checkDepthFragmentSpread(fragmentSpread, visitedFragments, checkedFragments, depth) {
 				return true
 			}
 		}
 		if inlineFragment, ok := child.(*ast.InlineFragment); ok {
-			if checkDepthSelectionSet(inlineFragment.SelectionSet, visitedFragments, depth) {
+			if checkDepthSelectionSet(inlineFragment.SelectionSet, visitedFragments, checkedFragments, depth) {
 				return true
 			}
 		}
@@ -53,7 +54,7 @@ func checkDepthSelectionSet(selectionSet ast.SelectionSet, visitedFragments map[
 	return false
 }
 
-func checkDepthField(field *ast.Field, visitedFragments map[string]bool, depth int) bool {
+func checkDepthField(field *ast.Field, visitedFragments map[string]bool, checkedFragments map[string]int, depth int) bool {
 	if field.Name == "fields" ||
 		field.Name == "interfaces" ||
 		field.Name == "possibleTypes" ||
@@ -63,10 +64,10 @@ func checkDepthField(field *ast.Field, visitedFragments map[string]bool, depth i
 			return true
 		}
 	}
-	return checkDepthSelectionSet(field.SelectionSet, visitedFragments, depth)
+	return checkDepthSelectionSet(field.SelectionSet, visitedFragments, checkedFragments, depth)
 }
 
-func checkDepthFragmentSpread(fragmentSpread *ast.FragmentSpread, visitedFragments map[string]bool, depth int) bool {
+func checkDepthFragmentSpread(fragmentSpread *ast.FragmentSpread, visitedFragments map[string]bool, checkedFragments map[string]int, depth int) bool {
 	fragmentName := fragmentSpread.Name
 	if visited, ok := visitedFragments[fragmentName]; ok && visited {
 		// Fragment cycles are handled by `NoFragmentCyclesRule`.
@@ -83,9 +84,20 @@ func checkDepthFragmentSpread(fragmentSpread *ast.FragmentSpread, visitedFragmen
 	// take a mutable approach for efficiency's sake. Importantly visiting a
 	// fragment twice is fine, so long as you don't do one visit inside the
 	// other.
+	// A fragment that stayed within the limit when entered at this depth (or
+	// deeper) stays within it again: do not walk it once per path that reaches
+	// it, which is exponential in the number of fragments.
+	if checked, ok := checkedFragments[fragmentName]; ok && depth <= checked {
+		return false
+	}
+
 	visitedFragments[fragmentName] = true
 	defer delete(visitedFragments, fragmentName)
-	return checkDepthSelectionSet(fragment.SelectionSet, visitedFragments, depth)
+	if checkDepthSelectionSet(fragment.SelectionSet, visitedFragments, checkedFragments, depth) {
+		return true
+	}
+	checkedFragments[fragmentName] = depth
+	return false
 }
 
 func init() {
